@@ -636,6 +636,12 @@ char *macros_expand_params(
     // skip whitespace immediately after opening parenthesis or a comma
     if ((ch == ' ' || ch == '\t') && (ptr == 0 || params[ptr - 1] == 0)) { continue; }
 
+    if (ptr >= (int)sizeof(params) - 3)
+    {
+      print_error(asm_context, "Macro parameters too long");
+      return nullptr;
+    }
+
     if (ch == '\\' && (in_string || in_ticks))
     {
       params[ptr++] = ch;
@@ -660,6 +666,12 @@ char *macros_expand_params(
 
     if (ch == ',' && !in_string && !in_ticks && open_parens == 0)
     {
+      if (count >= 254)
+      {
+        print_error(asm_context, "Too many macro parameters");
+        return nullptr;
+      }
+
       params[ptr++] = 0;
       params_ptr[++count] = ptr;
       continue;
@@ -691,6 +703,12 @@ for (int n = 0; n < count; n++)
 }
 #endif
 
+  if (asm_context->def_param_stack_count >= MAX_NESTED_MACROS)
+  {
+    print_error(asm_context, "Too many nested defines");
+    return nullptr;
+  }
+
   ptr = asm_context->def_param_stack_ptr[asm_context->def_param_stack_count];
 
   while (*define != 0)
@@ -699,7 +717,15 @@ for (int n = 0; n < count; n++)
     {
       define++;
 
-      strcpy(asm_context->def_param_stack_data + ptr, params + params_ptr[((int)*define) - 1]);
+      const char *param = params + params_ptr[((int)*define) - 1];
+
+      if (ptr + strlen(param) >= PARAM_STACK_LEN)
+      {
+        print_error(asm_context, "Expanded define is too long");
+        return nullptr;
+      }
+
+      strcpy(asm_context->def_param_stack_data + ptr, param);
 
       while (*(asm_context->def_param_stack_data + ptr) != 0) { ptr++; }
     }
@@ -708,10 +734,10 @@ for (int n = 0; n < count; n++)
       asm_context->def_param_stack_data[ptr++] = *define;
     }
 
-    if (ptr >= PARAM_STACK_LEN)
+    if (ptr >= PARAM_STACK_LEN - 1)
     {
-      print_error_internal(nullptr, __FILE__, __LINE__);
-      exit(1);
+      print_error(asm_context, "Expanded define is too long");
+      return nullptr;
     }
 
     define++;
